@@ -66,6 +66,12 @@ class World(ControlWorld):
         self.sit["C16.handshake_ok"] += 1
         members = public_members(cls)
         names = {n.replace("_", "-") for n, _ in members}
+        if self.case.get("long_first"):
+            # an unusually long reply (the error message echoes the token) must not spoil the replies that follow
+            got = await self.send(s, "x" * self.case["long_first"])
+            if len(got) != 1 or len(got[0]) < self.case["long_first"]:
+                self.violate("C16.command_set", f"a {self.case['long_first']}-character unknown command was answered with {[len(g) for g in got]} bytes")
+            self.sit["C16.long_reply_first"] += 1
         # top-level help
         got = await self.send(s, "-h")
         top = b"".join(got).decode()
